@@ -695,7 +695,9 @@ class Py2Cpp(ITranspiler):
 		if not value_raw.type_is(tuple):
 			raise Errors.OperationNotAllowed(node, 'Reject assign. Must be a tuple')
 
-		return self.render(node, f'assign/{node.classification}_destruction', vars={'receivers': receivers, 'value': value})
+		# 全ての左辺が宣言済みの場合は再代入。構造化束縛は新規宣言になるため使用できない
+		reassign = all([self.reflections.type_of(receiver).decl.declare != node for receiver in node.receivers])
+		return self.render(node, f'assign/{node.classification}_destruction', vars={'receivers': receivers, 'value': value, 'reassign': reassign})
 
 	def on_anno_assign(self, node: defs.AnnoAssign, receiver: str, var_type: str, value: str) -> str:
 		annotations = [self.transpile(annotation) for annotation in node.var_type.annotations]
